@@ -322,6 +322,7 @@ func runWorkers(self string, p *Prop, tier string, seed uint64, nshards int, lis
 				}
 			}
 			err = cmd.Wait()
+			reapScratch(cmd)
 			if hung {
 				o.hung = true
 				o.died = cur
@@ -820,8 +821,10 @@ func ReplayMain(path string) int {
 		case err = <-done:
 		case <-time.After(time.Duration(max(p.MaxRunSecs, 60)) * time.Second):
 			cmd.Process.Kill()
+			<-done
 			err = fmt.Errorf("hung")
 		}
+		reapScratch(cmd)
 		if err == nil {
 			if strings.Contains(string(ob.buf), "VIOLSIG ") {
 				fmt.Println(lastLines(string(ob.buf), 12))
@@ -932,6 +935,7 @@ func runChild(cmd *exec.Cmd, secs int) (int, bool) {
 	}
 	done := make(chan error, 1)
 	go func() { done <- cmd.Wait() }()
+	defer reapScratch(cmd)
 	select {
 	case <-done:
 		if cmd.ProcessState == nil {
@@ -942,6 +946,20 @@ func runChild(cmd *exec.Cmd, secs int) (int, bool) {
 		cmd.Process.Kill()
 		<-done
 		return -1, true
+	}
+}
+
+// reapScratch removes what a child that was killed or died could not remove itself:
+// its per-process scratch directory (props.NewEnv names it after the child's pid).
+func reapScratch(cmd *exec.Cmd) {
+	if cmd.Process == nil {
+		return
+	}
+	for _, base := range []string{"/dev/shm", os.TempDir()} {
+		ds, _ := filepath.Glob(filepath.Join(base, fmt.Sprintf("verif-p%d-*", cmd.Process.Pid)))
+		for _, d := range ds {
+			os.RemoveAll(d)
+		}
 	}
 }
 
